@@ -839,8 +839,10 @@ class EventGenerator:
         for key, val in value.attributes.items():
             yield XmlWriterEvent.ATTR, key, val
 
-        # No text is no data, an explicit xsi:nil attribute must survive
-        yield XmlWriterEvent.DATA, value.text or None
+        # No text is no data, an explicit xsi:nil attribute must survive,
+        # but the children of a nameless generic are content of the parent
+        empty = None if value.qname or not value.children else ""
+        yield XmlWriterEvent.DATA, value.text or empty
 
         for child in value.children:
             yield from self.convert_any_type(child, var, namespace)
